@@ -159,7 +159,7 @@ pub fn needs_sep(a: &str, b: &str) -> bool {
     matches!((x, y), ('<', '=') | ('>', '=') | (':', '=') | ('/', '/'))
 }
 
-pub const LAYOUTS: &[&str] = &["canon", "min", "nl", "crlf", "tab", "cmtall"];
+pub const LAYOUTS: &[&str] = &["canon", "min", "nl", "crlf", "cr", "tab", "cmtall"];
 
 /// Build a named layout for a program.  `cmt@<g>` puts one comment line into gap g.
 pub fn layout(p: &Prog, name: &str) -> Layout {
